@@ -19,6 +19,28 @@ def aug_incs(f, counter):
     return [n for n in walk_local(f.node) if isinstance(n, ast.AugAssign) and isinstance(n.target, ast.Subscript) and path_of(n.target.value) == f"self.{counter}"]
 
 
+def inside_ctx(n, ctx_expr) -> bool:
+    return any(isinstance(a, ast.With) and any(norm(it.context_expr) == ctx_expr for it in a.items) for a in ancestors(n))
+
+
+def reporter_units(mm, rf, stop: set, ctx_expr, depth=3):
+    """rf and the MessageManager methods it calls on self (transitively, not through the send path):
+    (function, every call chain to it runs inside the statistics block, chain of (caller, call) links)."""
+    out, seen = [], set()
+
+    def go(u, in_ctx, chain, d):
+        if (u.key, in_ctx) in seen or d > depth:
+            return
+        seen.add((u.key, in_ctx))
+        out.append((u, in_ctx, chain))
+        for c in calls_in(u.node):
+            if isinstance(c.func, ast.Attribute) and path_of(c.func.value) == "self" and c.func.attr in mm.methods and c.func.attr not in stop | {"send_message"} and not c.func.attr.startswith("__"):
+                go(mm.methods[c.func.attr], in_ctx or inside_ctx(c, ctx_expr), chain + [(u, c)], d + 1)
+
+    go(rf, False, [], 0)
+    return out
+
+
 def run(prog: Program, chk: Check):
     ty = Types(prog)
     cg = callgraph.get(prog)
@@ -48,14 +70,42 @@ def run(prog: Program, chk: Check):
             for n in walk_local(f.node):
                 if isinstance(n, ast.Assign) and any(isinstance(t, ast.Subscript) and path_of(t.value) == f"self.{cn}" for t in n.targets):
                     I.bad(fkey(f, n), where(f, n), f"{cn} entry assigned directly in {f.qual}: {norm(n)}")
+    # the exclusion mechanism is read off the code: the context-manager method the reporters send under, and the
+    # flag that method sets.  A guard computed from the message itself (its type, its source) is not a mechanism:
+    # a client's own message with those properties would go uncounted.
+    ctx_name, flag = None, None
+    for rn in ("send_timing_message", "send_traffic"):
+        rf = mm.methods.get(rn)
+        if rf is None:
+            raise AnalysisError(f"anchor vanished: MessageManager.{rn}")
+        for f2 in [u for u, _, _ in reporter_units(mm, rf, {fm.name}, "")]:
+            for w in walk_local(f2.node):
+                if isinstance(w, ast.With):
+                    for itm in w.items:
+                        ce = itm.context_expr
+                        if isinstance(ce, ast.Call) and isinstance(ce.func, ast.Attribute) and path_of(ce.func.value) == "self" and ce.func.attr in mm.methods and not ce.args:
+                            cand = mm.methods[ce.func.attr]
+                            if any(d.split(".")[-1] == "contextmanager" for d in cand.decorators):
+                                for c in calls_in(cand.node):
+                                    if is_method_call(c, "set") and (path_of(recv_of(c)) or "").startswith("self.") and c.args and isinstance(c.args[0], ast.Constant) and c.args[0].value is True:
+                                        ctx_name, flag = cand.name, path_of(recv_of(c))
+    if ctx_name is None:
+        I.bad(fkey(fm, "exclusion-mechanism"), where(fm), "the reporters do not send their statistics messages inside a block that raises a manager-side flag: nothing distinguishes the manager's own "
+              "statistics messages from client messages of the same types")
+        ctx_name, flag = "sending_traffic_ctx", "self.sending_traffic"
+    ctx_expr = f"self.{ctx_name}()"
     for cn, extra in (("traffic_counter", ""), ("message_counts", " and self.b_send_msg_timing")):
         incs = [n for n in g.nodes if n.kind == "stmt" and isinstance(n.ast, ast.AugAssign) and isinstance(n.ast.target, ast.Subscript) and path_of(n.ast.target.value) == f"self.{cn}"]
         if len(incs) != 1:
             I.bad(fkey(fm, f"{cn}:single-site"), where(fm), f"expected one increment of {cn} in forward_message, found {len(incs)}")
             continue
-        goal = guards.parse(f"not self.sending_traffic.get(){extra}")
+        goal = guards.parse(f"not {flag}.get(){extra}")
         I.decide(not guards.any_path_implies(gs.at(incs[0]), goal), fkey(fm, f"{cn}:guard"), where(fm, incs[0].ast), f"increment guarded by `{norm(goal)}`",
                  f"{cn} increment is not guarded by `{norm(goal)}` (statistics messages would be counted / flag ignored)")
+        # ... and by nothing computed from the message: every handled message counts, whatever its type or source
+        msg_tests = sorted({norm(a.test)[:70] for a in ancestors(incs[0].ast) if isinstance(a, (ast.If, ast.While)) and any(isinstance(x, ast.Name) and x.id in fm.params() and x.id != "self" for x in ast.walk(a.test))})
+        I.decide(not msg_tests, fkey(fm, f"{cn}:guard-independent-of-message"), where(fm, incs[0].ast), "the increment is not conditioned on the message",
+                 f"{cn} increment is conditioned on the message itself ({msg_tests}): client messages failing the test are handled but not counted")
         # with counting enabled, no path reaches a return / the routing code without the increment
         inc_ids = {incs[0].id}
         gs2 = flow.guard_states(g, edge_filter=lambda e: not (e.src in inc_ids and e.kind != "exc"))
@@ -63,7 +113,7 @@ def run(prog: Program, chk: Check):
         bad = []
         for n in later:
             ps = gs2.at(n) if n.kind != "exit" else [p for e in g.pred[g.exit.id] for p in gs2.after_edge(e) if not (e.src in inc_ids)]
-            if guards.any_path_implies(ps, guards.parse(f"not (not self.sending_traffic.get(){extra})")):
+            if guards.any_path_implies(ps, guards.parse(f"not (not {flag}.get(){extra})")):
                 bad.append(n)
         I.decide(not bad, fkey(fm, f"{cn}:counted-before-any-exit"), where(fm), "every exit / send of an enabled call is preceded by the increment (out-of-range destinations are still counted)",
                  f"forward_message can return or deliver without counting in {cn} although counting is enabled")
@@ -72,10 +122,19 @@ def run(prog: Program, chk: Check):
     # both reporters send under the sending_traffic block
     for rn in ("send_timing_message", "send_traffic"):
         rf = mm.methods[rn]
-        sends = [c for c in calls_in(rf.node) if self_call("send_message")(c) or self_call("forward_message")(c)]
-        okw = bool(sends) and all(any(isinstance(a, ast.With) and any(norm(it.context_expr) == "self.sending_traffic_ctx()" for it in a.items) for a in ancestors(c)) for c in sends)
-        I.decide(okw, fkey(rf, "sends-inside-ctx"), where(rf), "every statistics message is sent inside sending_traffic_ctx()", f"{rn} sends a statistics message outside sending_traffic_ctx(): it would be counted")
-    ctx = mm.methods["sending_traffic_ctx"]
+        sends_out = []
+        nsends = 0
+        for u, in_ctx, _chain in reporter_units(mm, rf, {ctx_name, fm.name}, ctx_expr):
+            for c in calls_in(u.node):
+                if self_call("send_message")(c) or self_call("forward_message")(c):
+                    nsends += 1
+                    if not (in_ctx or inside_ctx(c, ctx_expr)):
+                        sends_out.append(f"{u.name}: {norm(c)[:50]}")
+        okw = nsends > 0 and not sends_out
+        I.decide(okw, fkey(rf, "sends-inside-ctx"), where(rf), f"every statistics message is sent inside {ctx_expr}", f"{rn} sends a statistics message outside {ctx_expr}: it would be counted ({sends_out})")
+    ctx = mm.methods.get(ctx_name)
+    if ctx is None:
+        ctx = fm  # reported above as a missing mechanism; the flag rule below then fails on forward_message
     sets = [c for c in calls_in(ctx.node) if is_method_call(c, "set") and path_of(recv_of(c)) == "self.sending_traffic"]
     I.decide(len(sets) == 1 and isinstance(sets[0].args[0], ast.Constant) and sets[0].args[0].value is True and any(is_method_call(c, "reset") for c in calls_in(ctx.node)), fkey(ctx, "sets-flag"), where(ctx),
              "the block sets the flag and resets it afterwards", "sending_traffic_ctx does not set(True)/reset the flag")
@@ -94,20 +153,45 @@ def run(prog: Program, chk: Check):
         for f in mm.methods.values():
             for c in calls_in(f.node):
                 if is_method_call(c, "clear") and path_of(recv_of(c)) == f"self.{cn}":
-                    R.decide(f.key == rf.key, fkey(f, c), where(f, c), f"{cn} cleared by its reporter", f"{cn}.clear() in {f.qual}")
+                    R.decide(f.key in {u.key for u, _, _ in reporter_units(mm, rf, {ctx_name, fm.name}, ctx_expr)}, fkey(f, c), where(f, c), f"{cn} cleared by its reporter", f"{cn}.clear() in {f.qual}")
             for n in walk_local(f.node):
                 if isinstance(n, ast.Assign) and any(path_of(t) == f"self.{cn}" for t in n.targets) and f.name != "__init__":
                     R.bad(fkey(f, n), where(f, n), f"{cn} rebound in {f.qual}")
-        rg = C.build(rf.node)
+        units = reporter_units(mm, rf, {ctx_name, fm.name}, ctx_expr)
+        has_clear = lambda u: any(is_method_call(c, "clear") and path_of(recv_of(c)) == f"self.{cn}" for c in calls_in(u.node))
+        cu = [(u, chain) for u, _, chain in units if has_clear(u)]
+        if len({u.key for u, _ in cu}) != 1:
+            R.bad(fkey(rf, f"{cn}:copy-then-clear"), where(rf), f"{rn}: expected the clear of {cn} in exactly one place of the reporter, found {sorted({u.name for u, _ in cu})}")
+            continue
+        body = cu[0][0]
+        # every link of every call chain from the reporter to the clearing function is unconditional: the clear happens once per report
+        cond_links = []
+        for u, chain in cu:
+            for caller, call in chain:
+                cgf = C.build(caller.node)
+                cn_nodes = [n for n in cgf.nodes if any(c is call for c in node_calls(n))]
+                if not cn_nodes or flow.must_follow(cgf, [cgf.entry], cn_nodes, exits=("exit",)):
+                    cond_links.append(f"{caller.name} -> {norm(call)[:50]}")
+        R.decide(not cond_links, fkey(rf, f"{cn}:cleared-every-interval"), where(rf), f"the clear of {cn} is reached on every normal path of {rn}",
+                 f"{rn} reaches the clear of {cn} only conditionally ({cond_links}): counts of an interval without a report leak into the next report")
+        rf_ = body
+        rg = C.build(rf_.node)
         loops = [n for n in rg.nodes if n.kind == "for" and f"self.{cn}.items()" in norm(n.ast.iter)]
         clears = [n for n in rg.nodes if any(is_method_call(c, "clear") and path_of(recv_of(c)) == f"self.{cn}" for c in node_calls(n))]
-        if len(loops) != 1 or len(clears) != 1:
-            R.bad(fkey(rf, f"{cn}:copy-then-clear"), where(rf), f"{rn}: expected one copy loop over {cn}.items() and one clear, found {len(loops)}/{len(clears)}")
+        # a clear that is not preceded by the copy is tolerated only on a branch taken when nobody is subscribed to the
+        # report (the branch condition reads self.subscriptions); what that branch does is decided by C18-K's two scenarios
+        gsr = flow.guard_states(rg)
+        early = [c for c in clears if flow.must_precede(rg, loops, [c])]
+        unexplained = [c for c in early if not all(any("self.subscriptions" in norm(ex) for ex, _pol in p) for p in gsr.at(c))]
+        clears = [c for c in clears if c not in early]
+        if len(loops) != 1 or len(clears) != 1 or unexplained:
+            R.bad(fkey(rf, f"{cn}:copy-then-clear"), where(rf_), f"{rf_.name}: expected one copy loop over {cn}.items() followed by one clear, found {len(loops)} loop(s), {len(clears)} clear(s) after it"
+                  + (f", and a clear without a preceding copy at line {[c.ast.lineno for c in unexplained]}" if unexplained else ""))
             continue
-        okc = not flow.must_precede(rg, loops, clears) and not flow.must_follow(rg, [rg.entry], clears, exits=("exit",))
+        okc = not flow.must_follow(rg, [rg.entry], clears + early, exits=("exit",))
         # the clear comes after the loop finished (not inside it)
         okc = okc and not any(a is loops[0].ast for a in ancestors(clears[0].ast))
-        R.decide(okc, fkey(rf, f"{cn}:copy-then-clear"), where(rf), "copy loop completes, then the counter is cleared, on every normal path", f"{rn} does not clear {cn} after copying it on every path")
+        R.decide(okc, fkey(rf, f"{cn}:copy-then-clear"), where(rf_), "copy loop completes, then the counter is cleared, on every normal path", f"{rf_.name} does not clear {cn} after copying it on every path")
         # calls between the copy loop and the clear that can forward must sit inside the ctx block
         between = flow.reach(rg, [loops[0].id], blocked={clears[0].id}, blocked_pass_exc=False)
         offenders = []
@@ -116,13 +200,12 @@ def run(prog: Program, chk: Check):
             if n.id == clears[0].id:
                 continue
             for c in node_calls(n):
-                cands = [fi for (cc, st, fi, _) in cg.calls.get(rf.key, []) if cc is c and fi is not None]
+                cands = [fi for (cc, st, fi, _) in cg.calls.get(rf_.key, []) if cc is c and fi is not None]
                 if any(fi.key == fwd_key or fwd_key in cg.may_call(fi) for fi in cands):
-                    inside = any(isinstance(a, ast.With) and any(norm(it.context_expr) == "self.sending_traffic_ctx()" for it in a.items) for a in ancestors(c))
-                    if not inside:
+                    if not inside_ctx(c, ctx_expr):
                         offenders.append(norm(c)[:60])
-        R.decide(not offenders, fkey(rf, f"{cn}:nothing-counted-between"), where(rf), "no forwarding call between copy and clear outside the statistics block",
-                 f"{rn}: {offenders} can forward (and count) a message between the copy and the clear of {cn}")
+        R.decide(not offenders, fkey(rf, f"{cn}:nothing-counted-between"), where(rf_), "no forwarding call between copy and clear outside the statistics block",
+                 f"{rf_.name}: {offenders} can forward (and count) a message between the copy and the clear of {cn}")
 
     # ---- T timing table ---------------------------------------------------------------------------------------------
     T = chk.rule("C18-T", "send_timing_message stores count at index type for every counted type and pid at index mod_id for every module", 2,
@@ -161,6 +244,23 @@ def run(prog: Program, chk: Check):
     stf = mm.methods["send_traffic"]
     core = prog.module(CORE)
     sizes = sorted({0, 1, 2, KS - 1, KS, KS + 1, 2 * KS - 1, 2 * KS, 2 * KS + 1, 3 * KS + 5})
+    listener = Obj(prog.cls(MGR, "Module"), "Module")
+    mt_traffic, all_types = consts.get("MT_MESSAGE_TRAFFIC"), prog.module_constants("pyrtma.message").get("ALL_MESSAGE_TYPES", prog.module_constants(MGR).get("ALL_MESSAGE_TYPES"))
+
+    def tables(listeners: bool):
+        from collections import defaultdict as dd
+        t = dd(set)
+        if listeners:
+            t[mt_traffic] = {listener}
+        return t
+
+    try:
+        _chunking(prog, chk, K, mm, stf, core, sizes, KS, tables, consts, all_types, ctx_name)
+    except AnalysisError as e:
+        chk.defer_error(f"C18-K could not interpret send_traffic: {e}")
+
+
+def _chunking(prog, chk, K, mm, stf, core, sizes, KS, tables, consts, all_types, ctx_name):
     steps = 0
     for L in sizes:
         snapshots: List[dict] = []
@@ -178,9 +278,10 @@ def run(prog: Program, chk: Check):
             raise AnalysisError(f"C18 vocabulary exceeded: construction of {ci.name} in send_traffic")
 
         const_env = {"cd.MESSAGE_TRAFFIC_SIZE": KS, "MESSAGE_TRAFFIC_SIZE": KS, "cd.MDF_MESSAGE_TRAFFIC": ("class", core.classes["MDF_MESSAGE_TRAFFIC"]),
-                     "time.perf_counter": ("pyfunc", lambda: 0.0)}
-        it = Interp(prog, {"send_message": send, "sending_traffic_ctx": lambda s, a, k: None}, const_env, construct=construct)
-        mgr = Obj(mm, "MessageManager", traffic_counter=counter, traffic_seqno=1, traffic_start=0.0)
+                     "time.perf_counter": ("pyfunc", lambda: 0.0), "ALL_MESSAGE_TYPES": all_types, "cd.ALL_MESSAGE_TYPES": all_types}
+        const_env.update({f"cd.{k}": v for k, v in consts.items() if k.startswith("MT_") and isinstance(v, int)})
+        it = Interp(prog, {"send_message": send, ctx_name: lambda s, a, k: None}, const_env, construct=construct)
+        mgr = Obj(mm, "MessageManager", traffic_counter=counter, traffic_seqno=1, traffic_start=0.0, subscriptions=tables(True), modules={}, logger_modules=set())
         raised = None
         try:
             it.call_method(stf, mgr, [])
@@ -218,6 +319,16 @@ def run(prog: Program, chk: Check):
         if L == KS + 1:
             K.decide(len(mgr.get("traffic_counter")) == 0 and mgr.get("traffic_seqno") == 2, fkey(stf, "reset-after-report"), where(stf), "counter cleared and seqno advanced after the report",
                      "send_traffic does not clear the counter / advance traffic_seqno")
+            # an interval nobody listens to: nothing to deliver, but its counts must not leak into the next report
+            quiet = Obj(mm, "MessageManager", traffic_counter={("T", j): ("C", j) for j in range(3)}, traffic_seqno=1, traffic_start=0.0, subscriptions=tables(False), modules={}, logger_modules=set())
+            it2 = Interp(prog, {"send_message": lambda s_, a, k: None, ctx_name: lambda s_, a, k: None}, const_env, construct=construct)
+            try:
+                it2.call_method(stf, quiet, [])
+                K.decide(len(quiet.get("traffic_counter")) == 0, fkey(stf, "reset-without-listeners"), where(stf), "counter cleared at the end of an interval nobody subscribed to",
+                         "send_traffic leaves the interval's counts in place when nobody is subscribed: they are added to the next reported interval")
+            except ModelRaise as r:
+                K.bad(fkey(stf, "reset-without-listeners"), where(stf), f"send_traffic raises {r.name} when nobody is subscribed")
+            steps += it2.steps
             subs = [s["sub_seqno"] for s in snapshots]
             K.decide(subs == sorted(set(subs)) and all(s["seqno"] == 1 for s in snapshots), fkey(stf, "sub-seqno-distinct"), where(stf), "sub-messages carry the report seqno and distinct increasing sub_seqno",
                      f"sub-message numbering is {subs} with seqno {[s['seqno'] for s in snapshots]}")
